@@ -41,8 +41,8 @@ CHECKS = {
  'C10': ('other', 'BOUNDED stand-in, not a proof: packer, counter and unpacker are enforced against their contracts for lists of at most 3 (quick) / 5 (thorough) strings, every string length symbolic 0..65535, requested counts greater/equal/smaller than the packed count, exact-extent source and destination buffers, loops unwound with unwinding assertions; plus the type-level fact that the counter\'s return type carries every possible count. Prefix-sum offsets cannot be expressed in CBMC loop invariants without quantifiers.', '§5 C10',
          NOTE_COMMON + 'Bound on the number of strings; lists longer than the bound are not covered.', 'CBMC code contracts with bounded unwinding (unwinding assertions)'),
 
- 'C18': ('other', 'Partial: the ACF-CAN listener receive path (acf-can-listener.c:new_packet, #included unmodified) is enforced against a contract for ANY datagram and recv result in all its modes: every pointer/bounds obligation, the loop contract with a decreasing variant (bounded time), and return >= 0 (able to take the next datagram); library getters are replaced by their contracts, whose exact-extent preconditions turn a length field that reaches past the datagram into a failed call-site obligation. The CVF, AAF, hello-world, ACF-VSS and CRF listeners are NOT under contract.', '§5 C18',
-         NOTE_COMMON + 'Trusted contracts for recv / write / memcpy; printf("%s") over-reads and stale-byte reads are invisible to CBMC.', 'CBMC code contracts on the example receive function + loop contract'),
+ 'C18': ('other', 'Partial: the receive paths of the ACF-CAN, AAF and CVF listeners (#included unmodified) are enforced against contracts for ANY datagram and recv result: every pointer/bounds obligation, termination (loop variant for the ACF loop), return value in {0,-1} with -1 only if a system call failed (ghost set by the trusted environment contracts), sample/NAL queue stays well formed; helpers (is_valid_packet, schedule_sample, schedule_nal, get_h264_data_len, get_presentation_time, arm_timer) each carry and are enforced against their own contract and are replaced by it in their callers; library getters are replaced by their contracts, whose exact-extent preconditions turn a length field that reaches past the datagram into a failed call-site obligation. The hello-world, ACF-VSS and CRF listeners and the timeout() paths are NOT under contract.', '§5 C18',
+         NOTE_COMMON + 'Trusted contracts for recv / write / clock_gettime / timerfd_settime / malloc / memcpy; printf("%s") over-reads and stale-byte reads are invisible to CBMC.', 'CBMC code contracts on the example receive functions + loop contract'),
  'C19': ('other', 'Talker: prepare_acf_packet (#included unmodified) is enforced against the ACF-CAN reference encoding of the input frame (type, length, pad, RTR/EFF/BRS/FDF/ESI, identifier, data, pad bytes, returned byte count) for every classic/FD frame - a proof. Listener: BOUNDED stand-in - the real listener and library are model-checked on the reference encoding (written from the oracle, not the library) of 1..2 (quick) / 1..3 (thorough) symbolic frames per packet, checking that exactly those frames reach the CAN socket with identical id, flags, length and data. The talker main loop (length accumulation, socket I/O) is not under contract.', '§5 C19',
          NOTE_COMMON + 'recv/write stubs, bounded memcpy stand-in, frames per packet bounded.', 'CBMC code contract (talker builder) + bounded model checking (listener)'),
 }
